@@ -41,6 +41,7 @@ import (
 	"sort"
 	"strconv"
 	"strings"
+	"sync/atomic"
 	"syscall"
 	"time"
 
@@ -109,9 +110,21 @@ func childFakeAgent(args []string) int {
 	d := time.Duration(delay) * time.Millisecond
 	terms := make(chan os.Signal, 4)
 	signal.Notify(terms, syscall.SIGTERM) // handled, hence never deadly
+	noread := len(args) >= 6 && args[5] == "noread"
 	eof := make(chan struct{})
 	go func() {
-		io.Copy(io.Discard, os.Stdin)
+		if noread {
+			// never reads standard input: only notices that every writer has gone (POLLHUP), whatever is
+			// still sitting unread in the pipe
+			for {
+				fds := []unix.PollFd{{Fd: 0, Events: 0}}
+				if n, err := unix.Poll(fds, 50); err == nil && n > 0 && fds[0].Revents&(unix.POLLHUP|unix.POLLERR|unix.POLLNVAL) != 0 {
+					break
+				}
+			}
+		} else {
+			io.Copy(io.Discard, os.Stdin)
+		}
 		appendLine(log, "eof")
 		close(eof)
 	}()
@@ -153,6 +166,7 @@ type acIn struct {
 	Td       int    `json:"td"`       // termination delay set on the stream, ms
 	Recv     bool   `json:"recv"`     // a standard error receiver is handed to NewStream
 	Child    string `json:"child"`    // none | inherit | own | dies
+	Write    string `json:"write"`    // none | big | many | two: writers overfilling the standard input of an agent that never reads
 	Watchdog int    `json:"watchdog"` // ms
 }
 
@@ -191,7 +205,14 @@ func runAgentCloseCase(c *vlib.Ctx, self string, in acIn) map[string]any {
 	if in.Child == "" {
 		in.Child = "none"
 	}
-	cmd := exec.Command(self, "child", "fakeagent", in.Kind, strconv.Itoa(in.Delay), log, in.Child, root)
+	if in.Write == "" {
+		in.Write = "none"
+	}
+	reading := "read"
+	if in.Write != "none" {
+		reading = "noread"
+	}
+	cmd := exec.Command(self, "child", "fakeagent", in.Kind, strconv.Itoa(in.Delay), log, in.Child, root, reading)
 	var errSink io.Writer
 	if in.Recv {
 		errSink = io.Discard
@@ -243,10 +264,78 @@ func runAgentCloseCase(c *vlib.Ctx, self string, in acIn) map[string]any {
 		vlib.Fatal("fake agent reported no descendant")
 	}
 	stream.SetTerminationDelay(time.Duration(in.Td) * time.Millisecond)
+	// writers that push more than the pipe holds at an agent that never reads
+	var written atomic.Int64
+	type wres struct{ err error }
+	var wdone []chan wres
+	startWriter := func(big bool) {
+		ch := make(chan wres, 1)
+		wdone = append(wdone, ch)
+		go func() {
+			if big {
+				n, err := stream.Write(make([]byte, 1<<20))
+				written.Add(int64(n))
+				ch <- wres{err}
+				return
+			}
+			chunk := make([]byte, 8<<10)
+			for total := 0; total < 64<<20; total += len(chunk) {
+				n, err := stream.Write(chunk)
+				written.Add(int64(n))
+				if err != nil {
+					ch <- wres{err}
+					return
+				}
+			}
+			ch <- wres{nil}
+		}()
+	}
+	switch in.Write {
+	case "big":
+		startWriter(true)
+	case "many":
+		startWriter(false)
+	case "two":
+		startWriter(false)
+		startWriter(true)
+	}
+	stuck := false
+	if len(wdone) > 0 {
+		// gate: the byte counter has stopped growing and no writer has come back (bounded wait; a counter, not a verdict)
+		last, since := int64(-1), time.Now()
+		for dl := time.Now().Add(5 * time.Second); time.Now().Before(dl); time.Sleep(25 * time.Millisecond) {
+			if cur := written.Load(); cur != last {
+				last, since = cur, time.Now()
+			} else if time.Since(since) > 300*time.Millisecond {
+				break
+			}
+		}
+		stuck = true
+		for _, ch := range wdone {
+			if len(ch) > 0 {
+				stuck = false
+			}
+		}
+	}
 	done := make(chan error, 1)
 	t0 := time.Now()
 	go func() { done <- stream.Close() }()
-	out := map[string]any{"returned": false, "ms": 0, "alive": false, "err": "", "saweof": false, "sawterm": false, "childalive": false}
+	out := map[string]any{"returned": false, "ms": 0, "alive": false, "err": "", "saweof": false, "sawterm": false, "childalive": false,
+		"stuck": stuck, "wreturned": true, "werr": true, "wbytes": 0, "close2": true}
+	defer func() {
+		// writers: after Close (or after the clean-up kill) they must come back
+		for _, ch := range wdone {
+			select {
+			case r := <-ch:
+				if r.err == nil {
+					out["werr"] = false
+				}
+			case <-time.After(5 * time.Second):
+				out["wreturned"], out["werr"] = false, false
+			}
+		}
+		out["wbytes"] = int(written.Load())
+	}()
 	select {
 	case err := <-done:
 		out["returned"] = true
@@ -254,6 +343,16 @@ func runAgentCloseCase(c *vlib.Ctx, self string, in acIn) map[string]any {
 		out["err"] = errStr(err)
 		out["alive"] = pidExists(pid)
 		out["childalive"] = childPid > 1 && pidExists(childPid)
+		if in.Write != "none" {
+			// Close twice: the second call must come back as well
+			again := make(chan error, 1)
+			go func() { again <- stream.Close() }()
+			select {
+			case <-again:
+			case <-time.After(10 * time.Second):
+				out["close2"] = false
+			}
+		}
 	case <-time.After(time.Duration(in.Watchdog) * time.Millisecond):
 		out["ms"] = int(time.Since(t0) / time.Millisecond)
 		out["alive"] = pidExists(pid)
@@ -276,6 +375,7 @@ func runAgentClose(c *vlib.Ctx) error {
 		Slow  bool   `json:"slow"`
 		Child string `json:"child"`
 		Recv  bool   `json:"recv"`
+		W     bool   `json:"w"`
 	}
 	var specs []agentSpec
 	for _, b := range c.ReadBehaviours() {
@@ -290,7 +390,7 @@ func runAgentClose(c *vlib.Ctx) error {
 		return fmt.Errorf("no agent behaviours exported by the model")
 	}
 	sort.Slice(specs, func(i, j int) bool {
-		return fmt.Sprint(specs[i].Child, specs[i].Recv, specs[i].Kind, specs[i].At, specs[i].Slow) < fmt.Sprint(specs[j].Child, specs[j].Recv, specs[j].Kind, specs[j].At, specs[j].Slow)
+		return fmt.Sprint(specs[i].Child, specs[i].Recv, specs[i].Kind, specs[i].At, specs[i].Slow, specs[i].W) < fmt.Sprint(specs[j].Child, specs[j].Recv, specs[j].Kind, specs[j].At, specs[j].Slow, specs[j].W)
 	})
 	// orphaned descendants are re-parented to this process, which reaps them
 	if err := unix.Prctl(unix.PR_SET_CHILD_SUBREAPER, 1, 0, 0, 0); err != nil {
@@ -308,11 +408,14 @@ func runAgentClose(c *vlib.Ctx) error {
 				if alltd == 0 && s.Child != "none" && td != []int{300, 0, 1200}[(len(s.Kind)+s.At+rep)%3] {
 					continue
 				}
-				if alltd == 0 && s.Child == "none" && s.Recv != (td == 300) && td != 0 {
+				if alltd == 0 && !s.W && s.Child == "none" && s.Recv != (td == 300) && td != 0 {
+					continue
+				}
+				if s.W && alltd == 0 && td != 300 {
 					continue
 				}
 				jitter := c.Rand.Intn(150)
-				in := acIn{Kind: s.Kind, Td: td, Recv: s.Recv, Child: s.Child, Watchdog: watchdog}
+				in := acIn{Kind: s.Kind, Td: td, Recv: s.Recv, Child: s.Child, Write: "none", Watchdog: watchdog}
 				switch s.Kind {
 				case "self":
 					// exit once phase `at` is under way: before the termination delay, during the
@@ -338,6 +441,14 @@ func runAgentClose(c *vlib.Ctx) error {
 						in.Delay = 1300 + jitter*3
 					}
 				}
+				if s.W {
+					// an agent that never reads, against one big Write, many small ones, two writers at once
+					for _, w := range []string{"big", "many", "two"} {
+						in.Write = w
+						cases = append(cases, in)
+					}
+					continue
+				}
 				cases = append(cases, in)
 			}
 		}
@@ -352,10 +463,13 @@ func runAgentClose(c *vlib.Ctx) error {
 		// non-trivial: the agent was really running when Close was called and Close had to do something
 		// (wait, close the input, signal) - i.e. everything but an agent that was already gone
 		if out["returned"] == true && (out["ms"].(int) > 20 || out["saweof"] == true) {
-			c.NonTrivial(fmt.Sprintf("%s/%d/%d/%s/%v", in.Kind, in.Delay, in.Td, in.Child, in.Recv))
+			c.NonTrivial(fmt.Sprintf("%s/%d/%d/%s/%v/%s", in.Kind, in.Delay, in.Td, in.Child, in.Recv, in.Write))
 		}
 		if i%9 == 0 {
 			c.Sample(rec)
+		}
+		if in.Write != "none" {
+			c.AddExtra("cases_with_blocked_writer", 1)
 		}
 		if in.Child != "none" {
 			c.AddExtra("cases_with_descendant", 1)
